@@ -22,6 +22,8 @@ func runC19(r *Run) {
 	r.rule("C19.R5", "gas used = max(minimum, raw - refund), fixed afterwards", 5)
 	r.rule("C19.R6", "fee deduction in the ante handler and block gas limit", 7)
 	r.rule("C19.R7", "tx-hash context value precedes EVM construction", 1)
+	r.rule("C19.R8", "the state-DB commit writes every touched account's balance to the bank: SetAccount calls SetBalance with the account's balance unconditionally and returns its error; SetBalance mints a positive and burns a negative difference", 3)
+	c19Balances(r)
 
 	// ---------------------------------------------------------------- R1
 	if v := w.View("app/ante", "newEVMAnteHandler"); v == nil {
@@ -530,4 +532,75 @@ func rootFromCallV(v *FnView, e ast.Expr, name string) bool {
 		return false
 	}
 	return resolvesToCallV(v, id, name)
+}
+
+func c19Balances(r *Run) {
+	w := r.W
+	sa := w.View("x/evm/keeper", "Keeper.SetAccount")
+	sb := w.View("x/evm/keeper", "Keeper.SetBalance")
+	if sa == nil || sb == nil {
+		r.bad("C19.R8", "anchor|SetAccount/SetBalance", "-", "anchor", "x/evm/keeper SetAccount or SetBalance not found")
+		return
+	}
+	r.saw(sa.ID())
+	r.saw(sb.ID())
+	acctP := paramName(sa, 2)
+	ok := false
+	for _, c := range sa.CallsNamed("SetBalance") {
+		if len(c.Args) != 3 || exprString(c.Args[2]) != acctP+".Balance" || !isParamOf(sa, c.Args[1]) {
+			continue
+		}
+		uncond := true
+		for _, f := range sa.FactsAt(c, false) {
+			if sa.isSuccessOutcome(f) {
+				continue
+			}
+			if sa.isExpandedAlias(f) {
+				continue
+			}
+			uncond = false
+		}
+		if k, _ := sa.failArm(c); k == "return" && uncond {
+			ok = true
+		}
+	}
+	r.check(ok, "C19.R8", "SetAccount|balance-always-written", sa.pos(sa.Decl), "every committed account's balance is written to the bank, whatever its value", "SetAccount does not call SetBalance(ctx, addr, account.Balance) unconditionally with its error returned: a balance that is skipped (e.g. one that became exactly zero) stays in the bank, so the sender keeps what the recipient was credited")
+	// SetBalance: delta = amount - current; mint on +, burn on -
+	okMint, okBurn := false, false
+	ast.Inspect(sb.Decl.Body, func(n ast.Node) bool {
+		cc, isCC := n.(*ast.CaseClause)
+		if !isCC || len(cc.List) != 1 {
+			return true
+		}
+		sw, isSw := sb.parent(sb.parent(cc)).(*ast.SwitchStmt)
+		if !isSw || sw.Tag == nil || !strings.HasSuffix(exprString(sw.Tag), ".Sign()") {
+			return true
+		}
+		has := func(name string) bool {
+			for _, c := range allCalls(cc) {
+				if sb.calleeName(c) == name {
+					return true
+				}
+			}
+			return false
+		}
+		switch exprString(cc.List[0]) {
+		case "1":
+			okMint = has("MintCoins") && has("SendCoinsFromModuleToAccount") && !has("BurnCoins")
+		case "-1":
+			okBurn = has("SendCoinsFromAccountToModule") && has("BurnCoins") && !has("MintCoins")
+		}
+		return true
+	})
+	okDelta := false
+	ast.Inspect(sb.Decl.Body, func(n ast.Node) bool {
+		if c, isC := n.(*ast.CallExpr); isC {
+			if sel, isS := c.Fun.(*ast.SelectorExpr); isS && sel.Sel.Name == "Sub" && len(c.Args) == 2 && isParamOf(sb, c.Args[0]) && !isParamOf(sb, c.Args[1]) {
+				okDelta = true
+			}
+		}
+		return true
+	})
+	r.check(okMint && okBurn, "C19.R8", "SetBalance|mint-and-burn", sb.pos(sb.Decl), "a positive difference is minted to the account, a negative one is taken from it and burnt", "SetBalance does not mint on a positive and burn on a negative difference")
+	r.check(okDelta, "C19.R8", "SetBalance|difference", sb.pos(sb.Decl), "the difference is new balance minus current bank balance", "SetBalance does not compute new(big.Int).Sub(amount, balance)")
 }
